@@ -113,9 +113,16 @@ def _case(draw):
                 "1,H,E,,H+,E,E,NONE,NONE,exp(-32.7d0+13.5d0*lnTe)*vt_te",
                 "2,H+,E,,H,,,NONE,.LE.5.5e3,3.92d-13*invTe**0.6353d0*user_crflux",
                 "3,H,H,,H2,,,>10,NONE,1.0d-17*sqrTgas*T32**(0.5)*exp(-1.0d0*user_Av)",
-            ]})
+            ] + (["@common:user_late", "@var:vt_t4 = Tgas*1.0e-4", "4,H2,E,,H,H,E,NONE,NONE,5.6d-11*exp(-1.02d5*invT)*sqrTgas*user_late*vt_t4"] if draw(st.booleans()) else [])})
         else:
             files.append({"fmt": fmt, "lines": draw(_lines(fmt, bool(grain)))})
+    om_choices = [[], [], [{"target": "H2", "factor": "0.5 * nH", "deps": ["H"]}, {"target": "H", "factor": "-1.0 * nH", "deps": ["H"]}], [{"target": "H2", "factor": "1.0e-17", "deps": ["H", "H"]}]]
+    if grain == "hh93i" and fmts == ["leeds"]:
+        # the ism example's H2-formation modifier uses a derived quantity of the dust model
+        om_choices += [[{"target": "H2", "factor": "0.5 * hloss", "deps": ["H"]}, {"target": "H", "factor": "-hloss", "deps": ["H"]}]] * 2
+    if fmts == ["uclchem"]:
+        # the cloud example's modifiers use derived quantities of the UCLCHEM reaction class
+        om_choices += [[{"target": "H2", "factor": "H2formation", "deps": ["H"]}, {"target": "H2", "factor": "-H2dissociation", "deps": ["H2"]}]] * 2
     case = {
         "files": files,
         "grain_model": grain,
@@ -123,7 +130,7 @@ def _case(draw):
         "shielding": draw(st.sampled_from(SHIELD)),
         "cooling": draw(st.sampled_from([[], [], ["CIC_HI"], ["CIC_HI", "RC_HII", "CEC_HI"]])),
         "rate_mod": draw(st.sampled_from([{}, {}, {"1": "0.0"}, {"2": "1.0e-9 * nH"}])),
-        "ode_mod": draw(st.sampled_from([[], [], [{"target": "H2", "factor": "0.5 * nH", "deps": ["H"]}, {"target": "H", "factor": "-1.0 * nH", "deps": ["H"]}], [{"target": "H2", "factor": "1.0e-17", "deps": ["H", "H"]}]])),
+        "ode_mod": draw(st.sampled_from(om_choices)),
     }
     return case
 
@@ -226,6 +233,8 @@ def check_case(case, tier):
                 continue
             ds = named
             cls = build.classify_diag(ds[0])
+            if cls == "undeclared:stick" and case["grain_model"] == "hh93i" and "leeds" not in fmts:
+                cls += "/hh93i-without-leeds"
             failures.append((f"closure/{cls}", f"{'+'.join(fmts)} grain={case['grain_model'] or 'none'} {method}: {fname}: {ds[0].split(': ', 1)[-1][:300]}"))
     sample = {"formats": fmts, "grain_model": case["grain_model"], "method": method, "shielding": case["shielding"], "cooling": case["cooling"], "n_lines": sum(len(f["lines"]) for f in case["files"])}
     return CaseResult(failures, nontrivial, labels, sample=sample, extra={"translation_units_with_non_name_diagnostics": other})
